@@ -73,7 +73,7 @@ func readDiff(s string) (Diff, error) {
 		verifState, verifLen := state, len(diff)
 		switch header {
 		case "^":
-			if state == ADD || state == REMOVE {
+			if state == ADD || state == REMOVE || state == AFTER {
 				// Save the previous diff element.
 				err := checkDiffElement(de)
 				if err != nil {
